@@ -315,8 +315,17 @@ def _memo_check(ctx, rid, F):
     for v, tb in pre.term(dpre)["targets"]:
         region = [x for x in pre.reachable() if pre.dominates(tb, x)]
         region = pre.reach_from(tb)
-        if any(st.get("rv", {}).get("variant") == "PendingChildren" for x in region for st in pre.stmts(x)):
-            sched.add(names[v])
+        for x in region:
+            for st in pre.stmts(x):
+                rv = st.get("rv") or {}
+                if rv.get("variant") == "PendingChildren":
+                    op = rv["ops"][rv["fields"].index("children")]
+                    at = pre.atoms(op)
+                    shrink = [a[1] for a in at if a[0] == "call" and a[1] and a[1].split("::")[-1] in
+                              ("take", "skip", "filter", "step_by", "take_while", "skip_while", "filter_map", "truncate", "pop")]
+                    payload = any(a[0] == "field" and a[1].startswith("RenderNodeInfo::%s" % names[v]) for a in at) or names[v] == "Table"
+                    if payload and not shrink:
+                        sched.add(names[v])
     rec = set()
     recurse_closures = [cb.id for _bb, _i, cb, _o, _f in closure_bodies_created_in(F, cse)
                         if cb.calls(lambda cd, t: cd == cse.id)]
@@ -670,11 +679,22 @@ def _all_spans(b):
 
 
 def _line_has_checked_op(F, roots, sp):
-    """saturating/checked/wrapping arithmetic and f32 arithmetic are reported by clippy but cannot panic; accept a line
-    if the MIR of a reachable body has any statement on it (the inventory looked at that line and found no panic site)"""
+    """a clippy arithmetic site with no inventory site on its line is accepted only when the MIR shows why it cannot
+    panic there: the operator is a user-defined std::ops impl of this crate (its body is inventoried on its own), or
+    a float operation"""
     for fid in F.reachable_from(roots):
         b = F.bodies[fid]
-        for x in _all_spans(b):
-            if x == sp:
-                return True
+        for bb in b.reachable():
+            t = b.term(bb)
+            if t["span"] == sp and t["k"] == "call":
+                c = t.get("callee") or {}
+                if (c.get("trait") or "").startswith("std::ops::") and (c.get("resolved_local") or c.get("local")):
+                    return True
+            for st in b.stmts(bb):
+                if st["span"] == sp and st["k"] == "assign":
+                    rv = st["rv"]
+                    if "bin" in rv and rv.get("opty") in ("f32", "f64"):
+                        return True
+                    if "un" in rv and rv["un"] == "Neg":
+                        return True
     return False
